@@ -827,7 +827,35 @@ class Gen:
             if v.shape[axis] == 0:
                 return
             outs = [self.fresh("seq")]
-            node = helper.make_node("SplitToSequence", [v.name], outs, axis=axis, keepdims=self.pick([0, 1]))
+            d = v.shape[axis]
+            form = self.pick(["bare", "scalar_even", "scalar_uneven", "vector"])
+            ins = [v.name]
+            if form != "bare":
+                # split operand (constant in either form): a scalar chunk size that divides the axis or leaves a smaller last
+                # chunk, or the list of chunk sizes. The folder turns these into Split + SequenceConstruct.
+                if form == "scalar_even":
+                    sizes = [k for k in range(1, d + 1) if d % k == 0]
+                    sp = np.asarray(self.pick(sizes), dtype=np.int64)
+                elif form == "scalar_uneven":
+                    sizes = [k for k in range(2, d + 2) if d % k != 0]
+                    sp = np.asarray(self.pick(sizes), dtype=np.int64) if sizes else np.asarray(d, dtype=np.int64)
+                else:
+                    cut = self.draw(st.integers(0, d))
+                    sp = np.asarray(self.pick([[cut, d - cut], [d], [1] * d if d <= 4 else [d - 1, 1]]), dtype=np.int64)
+                ins.append(self.const_array(sp, how=self.pick(["node", "init"])).name)
+                self.features.add("sequence:split_" + form)
+            keepdims = self.pick([0, 1])
+            if form != "bare" and keepdims == 0:
+                # ONNX: keepdims is ignored when `split` is given (onnx.reference and shape inference do so); onnxruntime squeezes
+                # anyway for a scalar split, and the folder follows onnxruntime. With chunks of size 1 the operator itself is
+                # runtime-ambiguous (not generated, like OneHot); with a chunk of another size nothing can be squeezed and the
+                # folder must leave the node alone - that form is generated.
+                chunks = [int(sp)] * (d // int(sp)) + ([d % int(sp)] if d % int(sp) else []) if sp.ndim == 0 else [int(c) for c in sp]
+                if all(c == 1 for c in chunks):
+                    keepdims = 1
+                else:
+                    self.features.add("sequence:split_keepdims0_unsqueezable")
+            node = helper.make_node("SplitToSequence", ins, outs, axis=axis, keepdims=keepdims)
         else:
             others = [w for w in self.visible(lambda w: w.dtype == v.dtype and w.shape == v.shape)]
             ins = [v] + [self.pick(others) for _ in range(self.pick([0, 1, 2]))]
@@ -847,7 +875,9 @@ class Gen:
         if use == "length":
             return self.emit("SequenceLength", [seq])
         ax = 0
-        return self.emit("ConcatFromSequence", [seq], axis=ax, new_axis=self.pick([0, 1]))
+        new_axis = self.pick([0, 1])
+        self.features.add(f"sequence:concat_new_axis{new_axis}")
+        return self.emit("ConcatFromSequence", [seq], axis=ax, new_axis=new_axis)
 
     # ------------------------------------------------------------------ control flow
     def _branch(self, targets, parent_vis, force=None):
